@@ -49,6 +49,10 @@ func (m *mgen) neutral() {
 		}
 		m.add("", false, "<p>"+sb.String()+"</p>")
 	}
+	if m.r.Intn(4) == 0 {
+		// inline pictures / formulas with an element that happens to be called like a part of the document
+		m.add("", false, []string{`<svg width="1" height="1"><html></html></svg>`, `<math><html></html></math>`, `<svg><head><title>x</title></head></svg>`}[m.r.Intn(3)])
+	}
 }
 
 func (m *mgen) build(htmlAttrs string, keep func(string) bool) string {
@@ -601,6 +605,25 @@ func genCanonMarkupDoc(r *RNG, k int) markupDoc {
 			w.Article = *so.article
 		default:
 			w.Article = *ie.article
+		}
+	}
+	// spellings of the property attribute: a white space separated list of names (RDFa), padded, upper-case prefix
+	switch r.Intn(5) {
+	case 0:
+		for i := range m.fr {
+			if m.fr[i].src == "og" && r.Intn(2) == 0 {
+				m.fr[i].html = strings.Replace(m.fr[i].html, `property="og:title"`, `property="og:title twitter:title"`, 1)
+				m.fr[i].html = strings.Replace(m.fr[i].html, `property="og:url"`, `property=" og:url "`, 1)
+				m.fr[i].html = strings.Replace(m.fr[i].html, `property="og:image"`, `property="twitter:image og:image"`, 1)
+				m.fr[i].html = strings.Replace(m.fr[i].html, `property="og:description"`, "property=\"og:description\n\"", 1)
+			}
+		}
+	case 1:
+		if strings.Contains(d.HtmlAttrs, `prefix="og: http://ogp.me/ns#"`) && !strings.Contains(d.HtmlAttrs, "article:") {
+			d.HtmlAttrs = strings.Replace(d.HtmlAttrs, `prefix="og: `, `prefix="OG: `, 1)
+			for i := range m.fr {
+				m.fr[i].html = strings.ReplaceAll(m.fr[i].html, `property="og:`, `property="OG:`)
+			}
 		}
 	}
 	m.neutral()
